@@ -1210,9 +1210,13 @@ pub fn replay(j: &J, scratch: &Path) -> i32 {
     // schedules are not reproducible bit by bit: repeat the execution a number of times
     for attempt in 0..20 {
         let r = if kind == "scenario" { scenario(seed, case, which, scratch) } else { stress(seed, case, scratch, n_ops) };
-        if let Some(v) = r.violations.first() {
+        // the known relocation panic (ingested blob frames) is not what a C06 witness is about
+        if let Some(v) = r.violations.iter().find(|v| !v.sig.starts_with("panic:vptr-not-matched")) {
             println!("REPLAY-VIOLATION tags={} sig={} (attempt {attempt})", v.tags.join(","), v.sig);
             println!("{}", v.msg);
+            for o in r.violations.iter().filter(|o| o.sig != v.sig) {
+                println!("also in this execution: {} {}", o.sig, &o.msg[..o.msg.len().min(200)]);
+            }
             return 1;
         }
     }
